@@ -34,10 +34,10 @@ def _time_zone(s):
     if not m:
         return "reject"
     hh, mm, ss = int(m.group(1)), int(m.group(2)), int(m.group(3))
-    if hh > 23 or mm > 59 or ss > 61:
-        return "reject"
-    if ss >= 60:
-        return "u"    # leap second
+    if hh > 23 or mm > 59 or ss > 60:
+        return "reject"      # FIX 4.4: SS = 00-60
+    if ss == 60:
+        return "u"    # leap second: whether it is valid depends on the date
     if m.group(4) is not None and len(m.group(4)) != 4:
         return "u"    # FIX 4.4: milliseconds (3 digits); other precisions unspecified here
     return "accept"
